@@ -177,4 +177,116 @@ theorem wrap_inline_in_fragment_ge (doc doc' : Doc) (vars : Vars) (hv : Valid do
       | none => exact .inl ⟨by simp, by simp⟩
       | some x => exact .inr ⟨x, x, by simp, by simp, rfl, fun _ _ => trivial⟩
 
+/-! ### a new named fragment carved out of a fragment body -/
+
+private theorem freeL_mem' (nm : String) : ∀ (l : List Sel) (s : Sel), freeL nm l = true → s ∈ l → freeSel nm s = true := by
+  intro l
+  induction l with
+  | nil => intro s _ h; cases h
+  | cons x xs ih =>
+    intro s hb h
+    simp [freeL] at hb
+    cases h with
+    | head => exact hb.1
+    | tail _ h => exact ih s hb.2 h
+
+private theorem lookup_extended' (frags : List Frag) (nm : String) (body : List Sel) (n : String) :
+    lookupFrag (frags ++ [⟨nm, body⟩]) n = if nm == n then some ⟨nm, body⟩ else lookupFrag frags n := by
+  simp [lookupFrag, List.find?_cons]
+  split <;> simp_all
+
+/-- in an environment that defines `nm` as `body`, replacing a block `body` by `...nm` keeps the canonical levels -/
+private theorem wrapSpread_cL_ctx (frags : List Frag) (vars : Vars) (w : String → Nat) (hc : Consistent frags w)
+    (nm : String) (body : List Sel) (hl : lookupFrag frags nm = some ⟨nm, body⟩)
+    {s s' : List Sel} (h : WrapSpread nm body s s') : cL frags vars w s' = cL frags vars w s := by
+  induction h with
+  | here pre post =>
+    have hlk : fragLv frags vars w nm = cL frags vars w body := by simp [fragLv, hl]
+    simp [cL_append, cL_cons, cL_nil, cLv_spread frags vars w hc, skipped_none', hlk]
+  | field pre post a n d sub sub' _ ih =>
+    simp [cL_append, cL_cons, cL_nil, cLv_field frags vars w hc, ih]
+  | inline pre post d ss ss' _ ih =>
+    simp [cL_append, cL_cons, cL_nil, cLv_inline frags vars w hc, ih]
+
+/-- **wrap_spread_in_fragment_ge** — moving a block of selections of a fragment DEFINITION (at any nesting level of its
+    body) into a new named fragment `nm` and spreading it there never lowers the depth the rule measures for ANY
+    operation of the document (it leaves it unchanged = the specified depth in both documents).
+    `nm` is fresh: not defined in `doc` and not spread in the operation or in any fragment body of `doc`. -/
+theorem wrap_spread_in_fragment_ge (doc doc' : Doc) (vars : Vars) (hv : Valid doc vars) (hv' : Valid doc' vars)
+    (pre post : List Frag) (f : Frag) (nm : String) (body sels' : List Sel) (hw : WrapSpread nm body f.sels sels')
+    (hfr : doc.frags = pre ++ [f] ++ post)
+    (hfr' : doc'.frags = (pre ++ [⟨f.name, sels'⟩] ++ post) ++ [⟨nm, body⟩])
+    (hfresh : ∀ g ∈ doc.frags, g.name ≠ nm) (hfree : ∀ g ∈ doc.frags, freeL nm g.sels = true)
+    (hops : doc'.ops = doc.ops) (op : Op) (hop : op ∈ doc.ops) (hfreeop : freeL nm op.sels = true) :
+    ∃ d d', depthFixed doc.fuel op doc.frags vars = .ok d ∧ depthFixed doc'.fuel op doc'.frags vars = .ok d' ∧
+      d ≤ d' ∧ d' = depth doc vars op ∧ d' = depth doc' vars op := by
+  have hc := consistent_of_valid doc vars hv
+  have hc' := consistent_of_valid doc' vars hv'
+  have hnm : lookupFrag doc'.frags nm = some ⟨nm, body⟩ := by rw [hfr', lookup_extended']; simp
+  refine same_depth_of_sim doc doc' vars hv hv' op hop (by rw [hops]; exact hop) ?_
+  refine cL_sim doc.frags doc'.frags vars (wt doc) (wt doc') hc hc' (fun s => freeSel nm s = true)
+    (fun a n d sub h c hcm => freeL_mem' nm sub c (by simpa [freeSel] using h) hcm)
+    (fun d ss h c hcm => freeL_mem' nm ss c (by simpa [freeSel] using h) hcm) ?_ op.sels
+    (fun c hcm => freeL_mem' nm op.sels c hfreeop hcm)
+  intro n d hS
+  have hne : (nm == n) = false := by
+    simp only [freeSel, bne_iff_ne, ne_eq] at hS
+    simp; exact fun h => hS h.symm
+  have hfrees : ∀ g ∈ doc.frags, ∀ c ∈ g.sels, freeSel nm c = true :=
+    fun g hg c hcm => freeL_mem' nm g.sels c (hfree g hg) hcm
+  rw [hfr'] at hc' ⊢
+  rw [lookup_extended', hne]
+  simp only [Bool.false_eq_true, if_false]
+  rw [hfr, lookup_mid, lookup_mid]
+  cases hp : lookupFrag post n with
+  | some x =>
+    have hx : x ∈ doc.frags := by rw [hfr]; have := (lookupFrag_some hp).1; simp [this]
+    exact .inr ⟨x, x, rfl, rfl, rfl, hfrees x hx⟩
+  | none =>
+    simp only []
+    by_cases hg : (f.name == n) = true
+    · simp only [hg, if_true]
+      have hf : f ∈ doc.frags := by rw [hfr]; simp
+      refine .inr ⟨f, ⟨f.name, sels'⟩, rfl, rfl, ?_, hfrees f hf⟩
+      rw [hfr'] at hnm
+      exact wrapSpread_cL_ctx _ vars (wt doc') hc' nm body hnm hw
+    · simp only [hg]
+      cases hq : lookupFrag pre n with
+      | none => exact .inl ⟨by simp, by simp⟩
+      | some x =>
+        have hx : x ∈ doc.frags := by rw [hfr]; have := (lookupFrag_some hq).1; simp [this]
+        exact .inr ⟨x, x, by simp, by simp, rfl, hfrees x hx⟩
+
+/-! ### non-vacuity: `{ ...F }  fragment F { a { c } d }` -/
+
+private theorem valid_of_checks' (doc : Doc) (vars : Vars) (h1 : acyclic doc.frags = true)
+    (h2 : doc.ops.all (fun op => boundL vars op.sels) = true)
+    (h3 : doc.frags.all (fun f => boundL vars f.sels) = true) : Valid doc vars := by
+  simp only [List.all_eq_true] at h2 h3
+  exact ⟨h1, h2, h3⟩
+
+private def fA : Sel := .field none "a" {} [.field none "c" {} []]
+private def fD : Sel := .field none "d" {} []
+private def opF : Op := ⟨none, [.spread "F" {}]⟩
+private def d0 : Doc := ⟨[opF], [⟨"F", [fA, fD]⟩]⟩
+/-- `fragment F { ... { a { c } } d }` -/
+private def d1 : Doc := ⟨[opF], [⟨"F", [.inline {} [fA], fD]⟩]⟩
+/-- `fragment F { ...G d }  fragment G { a { c } }` -/
+private def d2 : Doc := ⟨[opF], [⟨"F", [.spread "G" {}, fD]⟩, ⟨"G", [fA]⟩]⟩
+
+example : ∃ d d', depthFixed d0.fuel opF d0.frags [] = .ok d ∧ depthFixed d1.fuel opF d1.frags [] = .ok d' ∧
+    d ≤ d' ∧ d' = depth d0 [] opF ∧ d' = depth d1 [] opF :=
+  wrap_inline_in_fragment_ge d0 d1 [] (valid_of_checks' _ _ (by decide) (by decide) (by decide))
+    (valid_of_checks' _ _ (by decide) (by decide) (by decide)) [] [] ⟨"F", [fA, fD]⟩ [.inline {} [fA], fD]
+    (.here [] [fA] [fD]) rfl rfl rfl opF (by simp [d0])
+
+example : ∃ d d', depthFixed d0.fuel opF d0.frags [] = .ok d ∧ depthFixed d2.fuel opF d2.frags [] = .ok d' ∧
+    d ≤ d' ∧ d' = depth d0 [] opF ∧ d' = depth d2 [] opF :=
+  wrap_spread_in_fragment_ge d0 d2 [] (valid_of_checks' _ _ (by decide) (by decide) (by decide))
+    (valid_of_checks' _ _ (by decide) (by decide) (by decide)) [] [] ⟨"F", [fA, fD]⟩ "G" [fA] [.spread "G" {}, fD]
+    (.here [] [fD]) rfl rfl (by decide) (by decide) rfl opF (by simp [d0]) (by decide)
+
+/-- and the common depth is 1 -/
+example : depthFixed d2.fuel opF d2.frags [] = .ok 1 := by decide
+
 end PyGql.Props.C19
